@@ -391,6 +391,77 @@ impl Actor {
     }
 }
 
+#[cfg(mainline_verif)]
+impl Actor {
+    pub fn verif_core(&self) -> &Core {
+        &self.core
+    }
+    pub fn verif_core_mut(&mut self) -> &mut Core {
+        &mut self.core
+    }
+    pub fn verif_socket(&self) -> &KrpcSocket {
+        &self.socket
+    }
+    pub fn verif_socket_mut(&mut self) -> &mut KrpcSocket {
+        &mut self.socket
+    }
+    pub fn verif_snapshot(&self) -> crate::verif::Snapshot {
+        let now = crate::verif::now_ns();
+        let (_, inflight, capacity, timeout_ns) = self.socket.verif_inflight();
+        let table = |t: &crate::common::RoutingTable| {
+            t.nodes()
+                .map(|n| (*n.id(), n.address(), n.verif_last_seen_ns()))
+                .collect::<Vec<_>>()
+        };
+        let mut iterative_queries: Vec<Id> = self.core.iterative_queries.keys().cloned().collect();
+        iterative_queries.sort();
+        let mut put_queries: Vec<Id> = self.core.put_queries.keys().cloned().collect();
+        put_queries.sort();
+        let mut put_senders: Vec<(Id, usize)> = self
+            .put_senders
+            .iter()
+            .map(|(k, v)| (*k, v.len()))
+            .collect();
+        put_senders.sort();
+        let mut get_senders: Vec<(Id, usize)> = self
+            .get_senders
+            .iter()
+            .map(|(k, v)| (*k, v.len()))
+            .collect();
+        get_senders.sort();
+        crate::verif::Snapshot {
+            id: *self.id(),
+            iterative_queries,
+            put_queries,
+            put_senders,
+            get_senders,
+            inflight_raw: inflight.len(),
+            inflight_live: inflight
+                .iter()
+                .filter(|(_, _, sent)| now.saturating_sub(*sent) < timeout_ns)
+                .count(),
+            inflight_capacity: capacity,
+            request_timeout_ns: timeout_ns,
+            cache_len: self.core.cached_iterative_queries.len(),
+            cache_kinds: self
+                .core
+                .cached_iterative_queries
+                .iter()
+                .map(|(k, v)| (*k, v.verif_view()))
+                .collect(),
+            stats: self.core.routing_table.verif_stats(),
+            signed_stats: self.core.signed_peers_routing_table.verif_stats(),
+            store_sizes: self.core.server.verif_sizes(),
+            server_mode: self.core.server_mode,
+            socket_server_mode: self.socket.verif_server_mode(),
+            firewalled: self.core.firewalled,
+            public_address: self.core.public_address,
+            routing_table: table(&self.core.routing_table),
+            signed_peers_routing_table: table(&self.core.signed_peers_routing_table),
+        }
+    }
+}
+
 pub fn run(config: Config, receiver: Receiver<ActorMessage>) {
     match Actor::new(config) {
         Ok(mut actor) => {
@@ -431,6 +502,10 @@ pub fn run(config: Config, receiver: Receiver<ActorMessage>) {
                         }
                         ActorMessage::ToBootstrap(sender) => {
                             let _ = sender.send(actor.to_bootstrap());
+                        }
+                        #[cfg(mainline_verif)]
+                        ActorMessage::Verif(sender) => {
+                            let _ = sender.send(actor.verif_snapshot());
                         }
                     },
                     Err(TryRecvError::Disconnected) => {
@@ -483,6 +558,8 @@ pub(crate) enum ActorMessage {
     Get(GetRequestSpecific, ResponseSender),
     Check(Sender<Result<(), std::io::Error>>),
     ToBootstrap(Sender<Vec<String>>),
+    #[cfg(mainline_verif)]
+    Verif(Sender<crate::verif::Snapshot>),
 }
 
 #[derive(Debug, Clone)]
